@@ -20,8 +20,14 @@ RULE = ('paths are lists of components drawn from weighted classes (1, 2, 3 char
         'names for relname/buildpath additionally contain . .. and empty pieces. A case is non-trivial when some '
         'component has at most 2 characters, a dot, a blank, a tilde, a colon, or equals PAR, or the path leaves the '
         'parent of the directory; distinct by its exact text. The direct oracle enumerates every path with 1-3 '
-        '(thorough: 1-4) components over a 9-name alphabet (all 1- and 2-character classes included) per directory.')
-TRUSTED = ('Path objects are built from component lists by the real constructor and read back with .suffix/.root; the '
+        '(thorough: 1-4) components over a 9-name alphabet (all 1- and 2-character classes included) per directory. '
+        'Scripts failing part-way: a caller script (depth 0-2) wraps submodule() of 1-2 scripts that declare 0-2 targets '
+        '(half of them named and sourced like the caller\'s) and then fail in one of six ways, and declares 1-2 targets '
+        'afterwards; the reference is the same script without the call. Half of the system-level projects carry such a '
+        'component and are configured twice (with / without the call).')
+TRUSTED = ('scripts failing part-way: the reference is a run of the same caller script (same real builtins / same real configure) in '
+           'which submodule() is never called; Makefile rules are read with a line-based reader (makefile_rules in harness/c05.py)',
+           'Path objects are built from component lists by the real constructor and read back with .suffix/.root; the '
            'path algebra itself (normpath, expanduser, splitdrive) is the subject of C12, here only its use',
            'the pre-fix regular expression (^|/)..(?=/|$) is validated against the model variant fixed=false by '
            'running Python re.sub on it inside the harness (it no longer exists in /repo since 7c2d988)',
@@ -513,6 +519,186 @@ def stage_oracle_objects(rep, rng, n, ctx):
     return bad
 
 
+# ----------------------------------------------------------------------------- scripts that fail part-way
+FAIL_HOW = [('raise', "raise RuntimeError('sdk not found')"), ('name', 'undefined_function_of_the_sdk()'), ('zero', 'x = 1 // 0'),
+            ('missing-sub', "submodule('does-not-exist')"), ('bad-arg', "executable()"), ('exit', 'exit(3)')]
+CATCH_HOW = ['except Exception:\n    pass', 'except Exception as e:\n    info("disabled: " + str(e))',
+             'except (RuntimeError, NameError, ZeroDivisionError, TypeError, OSError, ValueError, Exception):\n    pass']
+
+
+def failing_script(rng, declared, never):
+    """A build script that declares some targets and then fails; -> (text, how)"""
+    how, stmt = rng.choice(FAIL_HOW)
+    lines = ['%s(%r, files=%r)' % (k, n, f) for k, n, f in declared]
+    lines.append(stmt)
+    lines += ['%s(%r, files=%r)' % (k, n, f) for k, n, f in never]
+    return '\n'.join(lines) + '\n', how
+
+
+def stage_oracle_failed_scripts(rep, rng, n, ctx, recorded=()):
+    """Direct check on the real builtins: a script (top level or itself a submodule, depth 0-2) calls submodule() on
+    scripts that fail part-way - after declaring 0-2 targets, possibly of the same name and from equally named sources as
+    the caller's own - catches the error and goes on. Every target the caller declares afterwards must have exactly the
+    output, object and source paths it has in a run of the same script in which submodule() was never called
+    (model-independent: the second run is the reference), the script is back in its own directory (context path, relpath,
+    buildpath, working directory), and no two steps of the whole build share an output path (the emitter's duplicate check
+    is run on all edges) - the sources of different scripts are distinct files."""
+    from bfg9000.backends.make.syntax import Makefile
+    from bfg9000.builtins import path as bp
+    bad = 0
+    names = ['app', 'util', 'ab', 'b1', 'x.y']
+    subnames = ['plugin', 'opt', 'ab', 'app', 'a b', 'sub']
+
+    def tgt():
+        kind = rng.choice(['executable', 'executable', 'static_library', 'shared_library'])
+        stem = rng.choice(names)
+        files = list(dict.fromkeys([stem + '.c'] + [rng.choice(['', 'd/', 'ab/']) + rng.choice(names) + '.c'
+                                                    for _ in range(rng.randint(0, 2))]))
+        return (kind, stem, files)
+
+    def declare(c, t):
+        out = c[t[0]](t[1], files=list(t[2]))
+        if isinstance(out, (list, tuple)):
+            out = out[0]
+        return {'output': canon(out.path), 'objects': [canon(o.path) for o in out.creator.files],
+                'sources': [canon(o.creator.file.path) for o in out.creator.files]}
+
+    def where(c):
+        return {'script': canon(c.path), 'relpath': canon(c['relpath']('x/y.c')), 'buildpath': canon(bp.buildpath(c, 'x/y.o')),
+                'stack_depth': len(c.path_stack)}
+
+    for case in recorded:
+        case = dict(case, before=[tuple(t) for t in case['before']], after=[tuple(t) for t in case['after']],
+                    subs=[dict(sb, declared=[tuple(t) for t in sb['declared']]) for sb in case['subs']])
+        rep.case('failsub:' + json.dumps(case, sort_keys=True), True)
+        bad += run_failed_script_case(rep, ctx, case, declare, where, Makefile)
+    for it in range(n):
+        if bad >= 12:
+            break                         # enough failing inputs reported
+        depth = rng.choice([0, 0, 1, 2])
+        base = [rng.choice(['sub', 'ab', 'deep', 'a b']) for _ in range(depth)]
+        inter = rng.random() < 0.7
+        before = [tgt() for _ in range(rng.choice([0, 0, 1]))]
+        after = [tgt() for _ in range(rng.choice([1, 1, 2]))]
+        used = set(t[1] for t in before)
+        after = [t for t in after if not (t[1] in used or used.add(t[1]))] or [('executable', 'late', ['late.c', 'd/app.c'])]
+        subs = []
+        for sub in rng.sample(subnames, rng.choice([1, 1, 2])):
+            declared = []
+            for _ in range(rng.choice([0, 1, 1, 2])):
+                declared.append(rng.choice(after) if rng.random() < 0.5 else tgt())     # often the caller's own name and sources
+            seen = set()
+            declared = [t for t in declared if not (t[1] in seen or seen.add(t[1]))]
+            text, how = failing_script(rng, declared, [tgt()])
+            fails = rng.random() < 0.8
+            if not fails:
+                text, how = '\n'.join('%s(%r, files=%r)' % t for t in declared) + '\n', 'succeeds'
+            # a failing script may itself have called a script that succeeded or failed before
+            subs.append({'dir': sub, 'text': text, 'how': how, 'declared': declared})
+        case = {'kind': 'failed-script', 'base': base, 'intermediate_dirs': inter, 'before': before, 'after': after, 'subs': subs}
+        rep.case('failsub:' + json.dumps(case, sort_keys=True), True)
+        rep.count('failed-script:depth%d' % depth)
+        for sb in subs:
+            rep.count('failed-script:' + sb['how'])
+        bad += run_failed_script_case(rep, ctx, case, declare, where, Makefile)
+    rep.stage('oracle:scripts failing part-way', cases=n, failures=bad)
+    return bad
+
+
+def run_failed_script_case(rep, ctx, case, declare=None, where=None, Makefile=None):
+    base = case['base']
+    cwd0 = os.getcwd()
+    sdir = os.path.join(ctx.srcdir, *base)
+    made = []
+    problems = []
+    try:
+        for sb in case['subs']:
+            d = os.path.join(sdir, sb['dir'])
+            os.makedirs(d, exist_ok=True)
+            made.append(d)
+            open(os.path.join(d, 'build.bfg'), 'w').write(sb['text'])
+        runs = {}
+        for variant in ('with', 'without'):
+            build, c = ctx.context(base)
+            c['project']('p', intermediate_dirs=case['intermediate_dirs'])
+            res = {'before': [declare(c, t) for t in case['before']], 'caught': []}
+            res['where0'] = where(c)
+            if variant == 'with':
+                for sb in case['subs']:
+                    try:
+                        c['submodule'](sb['dir'])
+                        res['caught'].append(None)
+                    except Exception as e:
+                        res['caught'].append(type(e).__name__)
+                    if os.getcwd() != cwd0:
+                        problems.append('after submodule(%r) the working directory is %r' % (sb['dir'], os.getcwd()))
+                        os.chdir(cwd0)
+            res['where1'] = where(c)
+            try:
+                res['after'] = [declare(c, t) for t in case['after']]
+                res['error'] = None
+            except ValueError as e:
+                res['after'], res['error'] = None, str(e)
+            # the emitters' duplicate check runs at rule emission; emulate it with the real Makefile on every edge
+            mk = Makefile('build.bfg')
+            res['dup'] = None
+            try:
+                for e in build.edges():
+                    outs = [o.path for o in e.output]
+                    if outs:
+                        mk.rule(outs, recipe=[['true']])
+            except ValueError as e:
+                res['dup'] = str(e)
+            runs[variant] = res
+        a, b = runs['with'], runs['without']
+        if b['error'] or b['dup']:
+            return 0              # the reference run itself is not a valid project (two targets of one script collide)
+        if a['where1'] != a['where0']:
+            problems.append('after the caught failure the script is not back in its own directory: %r, before the call %r' % (
+                a['where1'], a['where0']))
+        if a['error']:
+            problems.append('declaring the targets after the caught failure raises %s' % a['error'])
+        elif a['after'] != b['after']:
+            k = next(i for i in range(len(b['after'])) if a['after'][i] != b['after'][i])
+            problems.append('%s(%r, files=%r) declared after the caught failure of submodule(%s) has %r; without the call it has %r' % (
+                case['after'][k][0], case['after'][k][1], case['after'][k][2],
+                ', '.join(repr(sb['dir']) for sb in case['subs']), a['after'][k], b['after'][k]))
+        # distinct inputs: the sub scripts compile their own files (below their own directories), the caller its own
+        if a['dup'] and not sub_scripts_collide(case):
+            problems.append('two steps write one output although every script compiles its own sources: %s' % a['dup'])
+    finally:
+        os.chdir(cwd0)
+        for d in made:
+            shutil.rmtree(d, ignore_errors=True)
+    for pr in problems:
+        rep.fail('scripts failing part-way: ' + pr, dict(case, problem=pr), classes=())
+    return len(problems)
+
+
+def sub_scripts_collide(case):
+    """two sub scripts of one case with one directory never happen (sampled without replacement); a sub script named like
+    a directory of the caller's sources (ab/) may legitimately declare the caller's object: (scope, path without extension)
+    as in predicted_clash"""
+    seen = set()
+    inter = case['intermediate_dirs']
+
+    def add(scope, name, files, pre):
+        hit = False
+        for f in files:
+            full = posixpath.normpath('/'.join(pre + [f]))
+            key = (posixpath.splitext(full)[0],) + ((tuple(pre), name) if inter else ())
+            hit = hit or key in seen
+            seen.add(key)
+        return hit
+    hit = False
+    for t in case['before'] + case['after']:
+        hit = add(None, t[1], t[2], []) or hit
+    for sb in case['subs']:
+        for t in sb['declared']:
+            hit = add(None, t[1], t[2], [sb['dir']]) or hit
+    return hit
+
+
 # ----------------------------------------------------------------------------- W: duplicate detection of the emitters
 def stage_w_emit(rep, rng, n):
     from bfg9000.backends.make import syntax as msyn
@@ -738,15 +924,56 @@ def gen_project(rng):
         targets.append(([], 'static_library', 'b', sources([], rng.randint(1, 3))))
     if depth:
         targets.append((base, rng.choice(['static_library', 'shared_library']), 's', sources(base, rng.randint(2, 4))))
-    return {'intermediate_dirs': inter, 'targets': [list(t) for t in targets], 'depth': depth}
+    proj = {'intermediate_dirs': inter, 'targets': [list(t) for t in targets], 'depth': depth}
+    if rng.random() < 0.5:
+        proj['failing'] = gen_failing(rng, proj)
+    return proj
 
 
-def write_project(proj, src):
+def gen_failing(rng, proj):
+    """An optional component: a directory whose build.bfg declares 0-2 targets (half of the time one named like a target of
+    the calling script, from equally named sources of its own) and then fails; the caller - the top-level script or the
+    innermost sub script - wraps submodule() in try/except at position pos among its own target declarations (so that at
+    least one of them follows) and goes on."""
+    caller = [] if (not proj['depth'] or rng.random() < 0.7) else ['sub', 'deep'][:proj['depth']]
+    own = [t for t in proj['targets'] if t[0] == caller]
+    declared = []
+    for _ in range(rng.choice([0, 1, 1, 2])):
+        if rng.random() < 0.5:
+            t = rng.choice(own)
+            srcs = [x for x in t[3] if x[0] != '..'] or [['x.c']]
+            declared.append([t[1], t[2], srcs])
+        else:
+            declared.append([rng.choice(['executable', 'static_library']), rng.choice(['plug', 'b', 'prog']),
+                             [[rng.choice(SYS_NAMES) + '.c'] for _ in range(rng.randint(1, 2))]])
+    uniq = []
+    for t in declared:
+        if t[1] not in [u[1] for u in uniq]:
+            uniq.append(t)
+    how, stmt = rng.choice(FAIL_HOW)
+    return {'caller': caller, 'dir': rng.choice(['plugin', 'opt', 'ab', 'b1']), 'declared': uniq, 'how': how, 'stmt': stmt,
+            'catch': rng.choice(CATCH_HOW), 'pos': rng.randrange(len(own))}
+
+
+def write_project(proj, src, call_failing=True):
     n = 0
     scripts = {}
-    for base, kind, name, srcs in proj['targets']:
+    fl = proj.get('failing')
+    alltargets = list(proj['targets'])
+    if fl:
+        # the component's files exist whether or not it is called
+        alltargets += [[fl['caller'] + [fl['dir']], k, nm, srcs] for k, nm, srcs in fl['declared']]
+        fscript = ['%s(%r, files=%r)' % (k, nm, ['/'.join(x) for x in srcs]) for k, nm, srcs in fl['declared']]
+        fscript += [fl['stmt'], "executable('never', files=['never.c'])"]
+    for base, kind, name, srcs in alltargets:
         lines = scripts.setdefault(tuple(base), [])
-        lines.append('%s(%r, files=%r)' % (kind, name, ['/'.join(s) for s in srcs]))
+        if fl and base == fl['caller'] + [fl['dir']]:
+            pass
+        else:
+            if fl and call_failing and base == fl['caller'] and len(lines) == fl['pos'] and not any(
+                    x.startswith('try:') for x in lines):
+                lines.append('try:\n    submodule(%r)\n%s' % (fl['dir'], fl['catch']))
+            lines.append('%s(%r, files=%r)' % (kind, name, ['/'.join(s) for s in srcs]))
         for s in srcs:
             f = os.path.normpath(os.path.join(src, *base, *s))
             os.makedirs(os.path.dirname(f), exist_ok=True)
@@ -766,12 +993,50 @@ def write_project(proj, src):
             lines.append('submodule(%r)' % chain[i + 1][-1])
         os.makedirs(os.path.join(src, *b), exist_ok=True)
         open(os.path.join(src, *b, 'build.bfg'), 'w').write('\n'.join(lines) + '\n')
+    if fl:
+        fd = os.path.join(src, *fl['caller'], fl['dir'])
+        os.makedirs(fd, exist_ok=True)
+        open(os.path.join(fd, 'build.bfg'), 'w').write('\n'.join(fscript) + '\n')
 
 
-def predicted_clash(proj):
+def effective_targets(proj, call_failing=True):
+    fl = proj.get('failing')
+    out = [list(t) for t in proj['targets']]
+    if fl and call_failing:
+        out += [[fl['caller'] + [fl['dir']], k, nm, srcs] for k, nm, srcs in fl['declared']]
+    return out
+
+
+MK_RULE = re.compile(r'^((?:[^\s:#=\\]|\\.)+):(?!=)[ \t]*(.*)$')
+MK_AGGREGATE = {'all', 'clean', 'install', 'uninstall', 'test', 'tests', 'dist', 'Makefile', '.PHONY', 'regenerate', 'distclean',
+                'install-strip'}
+
+
+def makefile_rules(text):
+    """{target: [(rest of the header line, recipe lines)]} of the file-producing rules of a generated Makefile"""
+    rules = {}
+    cur = None
+    phony = set(MK_AGGREGATE)
+    for line in text.split('\n'):
+        if line.startswith('.PHONY:'):
+            phony.update(line[7:].split())
+    for line in text.split('\n'):
+        if line.startswith('\t'):
+            if cur is not None:
+                cur[1].append(line)
+            continue
+        cur = None
+        m = MK_RULE.match(line)
+        if m and '%' not in m.group(1) and m.group(1) not in phony and not line.startswith(('define ', 'ifeq', 'ifneq', 'else', 'endif')):
+            cur = (m.group(2), [])
+            rules.setdefault(m.group(1), []).append(cur)
+    return rules
+
+
+def predicted_clash(proj, call_failing=True):
     """Independent of the model: two compile steps whose (scope, path without extension) coincide."""
     seen = set()
-    for base, kind, name, srcs in proj['targets']:
+    for base, kind, name, srcs in effective_targets(proj, call_failing):
         for s in srcs:
             full = posixpath.normpath('/'.join(list(base) + s))
             key = (posixpath.splitext(full)[0], ) + ((tuple(base), name) if proj['intermediate_dirs'] else ())
@@ -798,7 +1063,7 @@ def run_project(rep, proj, do_build):
                            capture_output=True, text=True, timeout=120)
         out = p.stdout + p.stderr
         clash = predicted_clash(proj)
-        nsrc = sum(len(t[3]) for t in proj['targets'])
+        nsrc = sum(len(t[3]) for t in effective_targets(proj))
         rep.case('sys:' + json.dumps(proj, sort_keys=True), True)
         rep.count('system:' + ('rejected' if p.returncode else 'configured'))
         problems = []
@@ -817,6 +1082,36 @@ def run_project(rep, proj, do_build):
             for o in objs:
                 if o.startswith('/') or o.startswith('..') or o.startswith('$') or '/../' in o:
                     problems.append('object outside the build directory: ' + o)
+            fl = proj.get('failing')
+            if fl and not clash:
+                # reference: the same files, the component never called (model-independent); every file-producing rule of
+                # the reference must be in this Makefile unchanged, and whatever is new lies below the component's directory
+                rep.count('system:failing-component:' + fl['how'])
+                src2, bld2 = os.path.join(d, 'src2'), os.path.join(d, 'build2')
+                os.makedirs(src2)
+                write_project(proj, src2, call_failing=False)
+                p2 = subprocess.run(['bfg9000', 'configure', bld2, '--backend=make', '--no-resolve-packages'], cwd=src2, env=env,
+                                    capture_output=True, text=True, timeout=120)
+                if p2.returncode != 0:
+                    problems.append('the reference project (component not called) does not configure: ' + (p2.stdout + p2.stderr)[-300:])
+                else:
+                    ra, rb = makefile_rules(mk), makefile_rules(open(os.path.join(bld2, 'Makefile')).read())
+                    below = '/'.join(fl['caller'] + [fl['dir']]) + '/'
+                    for t in sorted(rb):
+                        if t not in ra:
+                            problems.append('the rule for %r exists when the failing component %r is not called, but not after its '
+                                            'caught failure (rules only then: %r)' % (t, below, sorted(set(ra) - set(rb))[:6]))
+                            break
+                        if ra[t] != rb[t]:
+                            problems.append('the rule for %r differs after the caught failure of %r: %r, without the call %r' % (
+                                t, below, ra[t], rb[t]))
+                            break
+                    extra = [t for t in sorted(set(ra) - set(rb)) if not t.startswith(below)]
+                    if extra and not problems:
+                        problems.append('after the caught failure of %r there are rules outside its directory that the reference '
+                                        'lacks: %r' % (below, extra[:6]))
+                shutil.rmtree(src2, ignore_errors=True)
+                shutil.rmtree(bld2, ignore_errors=True)
             if do_build and do_build[0] > 0 and not problems:
                 do_build[0] -= 1
                 b = subprocess.run(['make', '-j4'], cwd=bld, env=env, capture_output=True, text=True, timeout=300)
@@ -831,7 +1126,7 @@ def run_project(rep, proj, do_build):
                 rep.count('system:built')
         if snapshot(src) != before:
             problems.append('the source directory changed: %r' % sorted(set(snapshot(src).items()) ^ set(before.items()))[:4])
-        extra = [x for x in os.listdir(d) if x not in ('src', 'build')]
+        extra = [x for x in os.listdir(d) if x not in ('src', 'build', 'src2', 'build2')]
         if extra:
             problems.append('files created outside source and build directory: %r' % extra)
         for pr in problems:
@@ -999,6 +1294,7 @@ def run(rep):
         dis += [('W:objects', ) + x for x in stage_w_objects(rep, rng, n // 3, fixed, ctx)]
         found = stage_oracle_within(rep, rng, 4 if (thorough or dis) else 3, (n // 3) * (10 if dis else 1))
         found += stage_oracle_objects(rep, rng, (600 if thorough else 120) * (5 if dis else 1), ctx)
+        found += stage_oracle_failed_scripts(rep, rng, 400 if thorough else 80, ctx)
     finally:
         shutil.rmtree(scratch, ignore_errors=True)
     found += kbad
@@ -1022,6 +1318,16 @@ def replay(rep, path):
         if check_within_set(rep, d, paths, 'replay'):
             return
         print('replayed input no longer fails')
+        return
+    if r.get('kind') == 'failed-script':
+        scratch = common.scratch('c05')
+        try:
+            ctx = Ctx(scratch)
+            case = {k: v for k, v in r.items() if k in ('kind', 'base', 'intermediate_dirs', 'before', 'after', 'subs')}
+            if not stage_oracle_failed_scripts(rep, random.Random(0), 0, ctx, [case]):
+                print('replayed case no longer fails')
+        finally:
+            shutil.rmtree(scratch, ignore_errors=True)
         return
     if r.get('kind') == 'project':
         if not run_project(rep, r['project'], [1]):
